@@ -215,7 +215,7 @@ def run(ctx):
     from .. import pipeline
 
     # wiring: the run's stored columns are this stage applied to the run's stored columns (see nssmc/pipeline.py)
-    pipeline.run_in(ctx, ['taus'], ('A', 'C'))
+    pipeline.run_in(ctx, ['taus'], ('A', 'C'), plots=['taus_histogram', 'taus_density_beta'])
     tier = ctx.tier
     for ver in (3, 1, 2):
         T = TR.load(ver)
